@@ -244,9 +244,44 @@ def work(item, opts):
         d = outcome_difference(outcome_canon(sa, ra), outcome_canon(sb, rb))
         if d:
             viol("run-differs-after-set-config", f"config {cfg!r}: constructed-with-config vs set_config_parameters: {d}"[:400])
+        # a stale read is a guide, not a verdict (reading a left-over value only to decide whether to refresh it is harmless):
+        # it is reported only with an observable difference, from this pair or from up to 8 further pairs built the same way
+        wit = d
+        if mon.stale_reads and not wit:
+            out["amplified"] = out.get("amplified", 0) + 1
+            for j in range(8):
+                spec_j = universe.make_spec(rng, kind=rng.choice(["continuous", "continuous", "multiobjective", "mixed", "binary"]))
+                cfg_j = dict(cfg, max_cycles=12, fitness_error=None, early_stopping=None) if j % 2 == 0 else cfg
+                try:
+                    a_j = cls(Cfg(**cfg_j))
+                    if t % 2 == 1:
+                        b_j = cls(Cfg(**other))
+                        optimize_plain(b_j, tasks.build_task(spec, rid + "-amp-pre"), mode="serial", workers=2)
+                    else:
+                        b_j = cls()
+                    b_j.set_config_parameters(json.loads(json.dumps(cfg_j)))
+                    for r_ in (rid + "-ampa", rid + "-ampb", rid + "-amp-pre"):
+                        tasks.register_run(r_, spec_j)
+                    s1, r1 = optimize_plain(a_j, tasks.build_task(spec_j, rid + "-ampa"), mode="serial", workers=2)
+                    s2, r2 = optimize_plain(b_j, tasks.build_task(spec_j, rid + "-ampb"), mode="serial", workers=2)
+                except Exception:
+                    continue
+                finally:
+                    for r_ in (rid + "-ampa", rid + "-ampb", rid + "-amp-pre"):
+                        tasks.unregister_run(r_)
+                if "timeout" in (s1, s2):
+                    continue
+                wit = outcome_difference(outcome_canon(s1, r1), outcome_canon(s2, r2))
+                if wit:
+                    wit = f"config {cfg_j!r} on {spec_j['vars']!r}: {wit}"
+                    break
         for field, n in sorted(mon.stale_reads.items()):
+            if not wit:
+                out["stale_unconfirmed"] = out.get("stale_unconfirmed", 0) + 1
+                continue
             viol("config-value-cached-at-construction", f"field {field} differs between the two instances "
-                 f"({dumps(ca.get(field))[:60]} vs {dumps(cb.get(field))[:60]}) and is read {n}x before being written", field=field)
+                 f"({dumps(ca.get(field))[:60]} vs {dumps(cb.get(field))[:60]}) and is read {n}x before being written; "
+                 f"observable effect: {str(wit)[:200]}", field=field)
     return out
 
 
